@@ -219,3 +219,30 @@ def all_selected(case):
         if t[0] in ('var', 'flat', 'concat'):
             sel.add(t[1])
     return all(b[1] in sel for b in case['binders'])
+
+
+def in_dfrag(case):
+    """the fragment on which the D-model (Dedup.v) claims the exact row SEQUENCE: a condition built from comparisons, membership
+    tests and expressions in condition position with and_/or_/not_, no for_all / nested query / flatten / concatenate anywhere
+    (mirrors Dedup.dfrag / Dedup.dterm; Run.run_qcase prints `DD -` outside it)"""
+    def tok(t):
+        if t[0] in ('lit', 'var'):
+            return True
+        if t[0] == 'map':
+            return tok(t[2])
+        return False
+
+    def cok(c):
+        k = c[0]
+        if k == 'cmp':
+            return tok(c[2]) and tok(c[3])
+        if k in ('in', 'contains'):
+            return tok(c[1]) and tok(c[2])
+        if k == 'truth':
+            return tok(c[1])
+        if k in ('and', 'or'):
+            return cok(c[1]) and cok(c[2])
+        if k == 'not':
+            return cok(c[1])
+        return False
+    return case.get('cond') is not None and cok(case['cond']) and all(tok(t) for t in case['sel']) and not case.get('infer')
